@@ -3,9 +3,10 @@
 (* internal/graph/dijkstra.go as a state machine: one step = one           *)
 (* iteration of the main loop (heap.Pop of ANY minimum-distance unvisited  *)
 (* vertex, then relaxation of its unvisited neighbours with strict "<").   *)
-(* Distances are int32 with math.MaxInt32 as "infinite": the addition      *)
-(* wraps, which is modelled (it only ever happens between vertices that    *)
-(* are unreachable from the source).                                       *)
+(* Distances are machine integers with the largest one as "infinite"      *)
+(* (int since the repair of F21, int32 before): the addition wraps, which  *)
+(* is modelled (it only ever happens between vertices that are unreachable *)
+(* from the source, as long as real path lengths stay below "infinite").   *)
 (* The property C18 is stated declaratively (true minimum by Bellman-Ford  *)
 (* iteration, predecessor chains) and checked (1) on this model for ALL    *)
 (* digraphs of the configured size and ALL tie-breaks and (2) on the       *)
@@ -19,10 +20,11 @@ CONSTANTS N,       \* vertices are 1..N
 
 V == 1..N
 None == -1                     \* no edge
-\* TLC's integers are 32 bit, so math.MaxInt32 and the wrapping addition are modelled at a smaller
-\* scale: MaxI stands for MaxInt32 and a sum above it wraps to the bottom of the range.  The ORDER
-\* of all values the algorithm compares is the same as with int32 as long as real path lengths
-\* stay below MaxI (wrapped values only differ by a constant offset).
+\* TLC's integers are 32 bit, so the largest int and the wrapping addition are modelled at a smaller
+\* scale: MaxI stands for the largest int and a sum above it wraps to the bottom of the range.  The ORDER
+\* of all values the algorithm compares is the same as in the code as long as real path lengths
+\* stay below MaxI (wrapped values only differ by a constant offset).  Traces of graphs with huge
+\* weights are written in units of a common factor of the weights (harness flag -unit).
 MaxI == 1000000
 Wrap(x) == IF x > MaxI THEN x - 2 * MaxI - 2 ELSE x
 
